@@ -42,6 +42,11 @@ def run(repo: Repo, rep: Report, tier: str) -> None:
     unres = AcceptorModel(repo, "negotiate_unrestricted")
     rq = RequestorModel(repo)
     rep.check(rq.idx == (0, 1), "complementary", "presentation.negotiate_as_requestor", f"as_scu, as_scp = outcome{list(rq.idx)}", "the requestor's roles are elements 0 and 1 of the outcome tuple", mod=pres, node=rq.node)
+    if rq.lookup_problem is None:
+        rep.ok("iteration-independent", "presentation.negotiate_as_requestor :: ac_roles is bound in every iteration to this context's reply or (None, None)")
+    else:
+        g_, text_, path_ = rq.lookup_problem
+        rep.fail("iteration-independent", "presentation.negotiate_as_requestor", g_, text_ + ": the requestor then decides its roles for this context from the acceptor's answer about another SOP class while the acceptor applies its defaults - the two ends disagree on who is SCU / SCP", mod=pres, node=g_, path=path_)
     rep.check(rq.default == (True, False), "complementary", "presentation.negotiate_as_requestor", f"default roles {rq.default}", "without a role reply the requestor is SCU only", mod=pres, node=rq.node)
     rep.check(normal.default == (False, True), "complementary", "presentation.negotiate_as_acceptor", f"default roles {normal.default}", "without role negotiation the acceptor is SCP only", mod=pres, node=normal.fn)
 
@@ -161,3 +166,81 @@ def run(repo: Repo, rep: Report, tier: str) -> None:
         fn_ = pres.funcs.get(fname_)
         if fn_ is not None and any(isinstance(x, _ast.Name) and x.id == "reply_roles" for x in _ast.walk(fn_)):
             check_reply_ownership(rep, pres, fn_, f"presentation.{fname_}", "reply_roles")
+    check_unique_ids(repo, rep)
+
+
+def _affine(e, var: str):
+    """expression over one integer variable -> (a, b) with e == a*var + b, or None"""
+    from ..loader import strip_cast
+
+    e = strip_cast(e)
+    if isinstance(e, ast.Constant) and isinstance(e.value, int) and not isinstance(e.value, bool):
+        return (0, e.value)
+    if isinstance(e, ast.Name) and e.id == var:
+        return (1, 0)
+    if isinstance(e, ast.UnaryOp) and isinstance(e.op, ast.USub):
+        r = _affine(e.operand, var)
+        return None if r is None else (-r[0], -r[1])
+    if isinstance(e, ast.BinOp):
+        l, r = _affine(e.left, var), _affine(e.right, var)
+        if l is None or r is None:
+            return None
+        if isinstance(e.op, ast.Add):
+            return (l[0] + r[0], l[1] + r[1])
+        if isinstance(e.op, ast.Sub):
+            return (l[0] - r[0], l[1] - r[1])
+        if isinstance(e.op, ast.Mult) and (l[0] == 0 or r[0] == 0):
+            return (l[0] * r[1] + r[0] * l[1], l[1] * r[1])
+        if isinstance(e.op, ast.LShift) and r[0] == 0 and r[1] >= 0:
+            return (l[0] << r[1], l[1] << r[1])
+    return None
+
+
+def check_unique_ids(repo: Repo, rep: Report) -> None:
+    """Both negotiate_as_requestor and the A-ASSOCIATE-AC handling key the proposed contexts by context ID
+    (dicts): two proposed contexts with one ID collapse into one, and 'every proposed context appears
+    exactly once' is lost. AE.associate() is where the IDs are given out: in its numbering loop every
+    context must get, on every path, an ID that is an injective odd function of its position."""
+    from ..cfg import CFG, typestate
+
+    rep.rule("unique-ids", "AE.associate() numbers every proposed context, unconditionally, with an odd ID that is injective in its position (PS3.8 9.3.2.2: odd, unique per association)")
+    ae = repo.mod("ae")
+    fn = repo.func("ae", "ApplicationEntity.associate")
+    fq = "ae.ApplicationEntity.associate"
+    loops = []
+    for lp in walk_no_nested(fn):
+        if isinstance(lp, ast.For) and isinstance(lp.iter, ast.Call) and norm(lp.iter.func) == "enumerate" and isinstance(lp.target, ast.Tuple) and len(lp.target.elts) == 2 and all(isinstance(e, ast.Name) for e in lp.target.elts):
+            idx, elt = lp.target.elts[0].id, lp.target.elts[1].id
+            if any(isinstance(s, ast.Assign) and norm(s.targets[0]) == f"{elt}.context_id" for s in ast.walk(lp)):
+                loops.append((lp, idx, elt))
+    if len(loops) != 1:
+        rep.defer(f"{fq}: the loop that numbers the proposed contexts was not found ({len(loops)} candidates)")
+        return
+    lp, idx, elt = loops[0]
+    writes = [s for s in ast.walk(lp) if isinstance(s, ast.Assign) and norm(s.targets[0]) == f"{elt}.context_id"]
+    for w in writes:
+        ab = _affine(w.value, idx)
+        ok = ab is not None and ab[0] != 0 and ab[0] % 2 == 0 and ab[1] % 2 == 1 and ab[1] > 0
+        rep.check(ok, "unique-ids", fq, w, f"the ID given to the context at position {idx} is {norm(w.value)}" + (f" = {ab[0]}*{idx} + {ab[1]}" if ab else "") + ": it must be odd and different for every position", mod=ae, node=w)
+    # on every path through one iteration the ID is written
+    cfg = CFG(fn, body=body_nodoc(fn), local_exc_only=True)
+    it = [n for n in cfg.nodes if n.kind == "iter" and n.ast is lp]
+    if len(it) != 1:
+        rep.defer(f"{fq}: numbering loop not in the flow graph")
+        return
+
+    def transfer(n, st):
+        if n is it[0]:
+            # entering the next iteration (or leaving the loop): 'unnumbered' here means the iteration
+            # that just ended had a path without a write
+            return [(st if st == "leak" else ("leak" if st == "unnumbered" else "unnumbered"), None)]
+        if n.kind == "stmt" and n.ast in writes:
+            return [("numbered", {l for _, l in n.succ if l != "exc"}), (st, {"exc"})]
+        return [(st, None)]
+
+    ins, _ = typestate(cfg, "numbered", transfer)
+    # state at the loop head coming round again: 'unnumbered' there means an iteration ended without a write
+    leak = "leak" in ins.get(it[0].id, set()) or any("leak" in v for v in ins.values())
+    rep.check(not leak, "unique-ids", fq, lp, "a path through one iteration of the numbering loop leaves the context with the ID it came with (None, or the ID it had in an earlier association): re-proposed contexts then share an ID with a freshly numbered one, and the requestor's dict of proposed contexts silently drops one of them", mod=ae, node=lp)
+    # the numbering happens on the association's own copies, after the copy
+    rep.floor("context-ID writes in associate()", len(writes), 1)
